@@ -83,6 +83,12 @@ CHECKS.update({
             "Bounds: 2 hosts + controller, 1-2 datasets, command sequences of 3-4 commands issued as the controller may issue them (C04), <=3 faults, <=2 identical frames in flight; commands/purges delivered exactly once (C06); thread-pool capacity not modelled; harness fakes for network, shm dict, futures, clock."),
 })
 
+CHECKS.update({
+    "C05": ("model_checking", "failure", "TLC liveness checking of spec/Failure.tla (detection / report / teardown state machine) + TLC-enumerated fault scenarios run on real clusters (real executor, shm server, data server and worker processes, real Bridge and controller) and judged by the spec's post-condition",
+            "Every fault of the model (task raises; worker, data server or shm server dies with zero or non-zero status before, between or after the outputs) leads to the run ending and the executor and its children being gone; on real process trees every enumerated scenario ends within the deadline, with an error when an output is lost, never with a wrong value, leaving no process of the run and no shm segment.",
+            "'Bounded time' is a 20-30 s deadline (healthy runs take 1-3 s); faults injected from the task body; clusters 1x1, 1x2, 2x1; real time and real processes, so a result can in principle depend on machine load (a hang that is not the controller waiting in recv_events is re-run once)."),
+})
+
 NOT_YET = {
 }
 
@@ -119,6 +125,8 @@ def main():
              "kind_free_text": "TLC on spec/Gateway.tla + behaviour replay into the real router and handlers"},
             {"name": "transfer", "path": "harness/props/c07.py", "serves_properties": ["C07"],
              "kind_free_text": "TLC on spec/Transfer.tla + behaviour replay into real DataServer objects"},
+            {"name": "failure", "path": "harness/props/c05.py", "serves_properties": ["C05"],
+             "kind_free_text": "TLC on spec/Failure.tla + real multi-process cluster scenarios judged by the spec"},
             {"name": "shm", "path": "harness/shm_engine.py", "serves_properties": ["C08", "C09"],
              "kind_free_text": "TLC model checking of spec/Shm.tla + TLC-generated behaviours replayed into the real Manager"},
         ],
